@@ -83,5 +83,22 @@ PROPS["C15"] = {
     "exhaustive": False,
 }
 
+PROPS["C03"] = {
+    "budget": {"quick": 60, "thorough": 600},
+    "rule": "inputs to Code::parse / Variable::from_str / Type::from_str from six families: (a) every token sequence of length <= 3 over a 99-token alphabet (all operators, keywords, brackets, one literal of each kind, bound and unbound names) "
+            "in four statement contexts (names bound as constants = folding paths; as typed parameters = run-time paths; inside a loop; in infix position), longer sequences sampled; all type-token sequences of length <= 4 (5 thorough) and value-literal token sequences of length <= 4; "
+            "(b) grammar-directed programs that ignore types; (c) token-level mutations and splices of the documentation's snippets, example_scripts and a construct checklist; (d) the checklist itself incl. imports of missing / directory / non-UTF-8 / ill-formed / ill-typed files; "
+            "(e) failing constant subexpressions (1/0, 1%0, 1<<64, 2**-1, [][0], ...) in every constant position; (f) arbitrary Unicode text. Oracle: no panic (resource panics are inconclusive). "
+            "distinct_nontrivial = distinct inputs that got past the pest grammar and reached instruction construction (accepted or rejected by the checker).",
+    "assumptions": COMMON_ASSUME + ["nesting depth <= 24 and literal sizes bounded (outside the claim beyond that); capacity-overflow / allocation panics are counted inconclusive"],
+    "floors": {"quick": {"evaluations": 2000000, "distinct": 100000, "checklist_accepted": 20, "shape:checker_errors": 25, "shape:import_cases": 10},
+               "thorough": {"evaluations": 20000000, "distinct": 1000000, "checklist_accepted": 20, "shape:checker_errors": 25, "shape:import_cases": 10}},
+    "death_is_violation": True,
+    "technique": "runtime panic monitor (catch_unwind + panic hook + worker exit status) over exhaustive short token sequences, grammar-directed and mutation workloads",
+    "level_text": "Millions of hostile inputs are pushed through the three real parse entry points; every token sequence up to length 3 is enumerated in four contexts, longer and deeper inputs are sampled. Any panic or abort is a violation with the input as witness.",
+    "level_note": "exhaustive only for token sequences of length <= 3 over the listed alphabet; everything else is sampled",
+    "exhaustive": False,
+}
+
 # properties deliberately not claimed (reason each); anything else missing from PROPS is simply not built yet
 NOT_APPLICABLE = {}
